@@ -1,0 +1,73 @@
+//go:build verif
+
+package metadata
+
+// Contracts for gvc (see /verif/DESIGN.md). Comment-only: this file adds no code to any build.
+
+//@ func GetMethodHideOpts props C01,C14
+//@ ensures result.Type == ite(attributes != nil && annotations.hasAttr(*attributes, "Hidden"), definitions.HideMethodAlways, definitions.HideMethodNever)
+//@ ensures result.Condition == ""
+
+//@ func GetDeprecationOpts props C01,C06,C14
+//@ ensures result.Deprecated == (holder != nil && annotations.hasAttr(*holder, "Deprecated"))
+//@ ensures implies(result.Deprecated, forall(k, 0, len(holder.attributes), implies(annotations.isFirst(*holder, "Deprecated", k), result.Description == holder.attributes[k].Description)))
+//@ ensures implies(!result.Deprecated, result.Description == "")
+
+//@ func GetDefaultSecurity props C03,C04,C14
+//@ ensures nilcfg: implies(config == nil, len(result) == 0)
+//@ ensures none: implies(config != nil && config.OpenAPIGeneratorConfig.DefaultRouteSecurity == nil, len(result) == 0)
+//@ ensures one: implies(config != nil && config.OpenAPIGeneratorConfig.DefaultRouteSecurity != nil, len(result) == 1 && len(result[0].SecurityAnnotation) == 1 && result[0].SecurityAnnotation[0] == *config.OpenAPIGeneratorConfig.DefaultRouteSecurity)
+
+//@ spec secCount(h annotations.AnnotationHolder) int = annotations.countName(h, "Security", len(h.attributes))
+//@ spec isSecOf(h annotations.AnnotationHolder, s []definitions.RouteSecurity) bool = len(s) == secCount(h) && forall(k, 0, len(h.attributes), implies(h.attributes[k].Name == "Security", len(s[annotations.countName(h, "Security", k)].SecurityAnnotation) == 1 && s[annotations.countName(h, "Security", k)].SecurityAnnotation[0].SchemaName == h.attributes[k].Value && h.attributes[k].Value != ""))
+
+//@ func GetSecurityFromContext props C03,C04,C14
+//@ requires holder != nil
+//@ ensures ok: implies(result1 == nil, isSecOf(*holder, result0))
+//@ ensures emptyName: implies(exists(k, 0, len(holder.attributes), holder.attributes[k].Name == "Security" && holder.attributes[k].Value == ""), result1 != nil)
+//@ loop 0 invariant 0 <= _n && _n <= len(normalSec) && len(securities) == _n && fresh(securities)
+//@ loop 0 invariant forall(i, 0, _n, len(securities[i].SecurityAnnotation) == 1 && securities[i].SecurityAnnotation[0].SchemaName == normalSec[i].Value && normalSec[i].Value != "")
+
+//@ func GetRouteSecurityWithInheritance props C03,C04,C14
+//@ requires receiverAnnotations != nil
+//@ ensures own: implies(result1 == nil && secCount(*receiverAnnotations) > 0, isSecOf(*receiverAnnotations, result0))
+//@ ensures inherited: implies(result1 == nil && secCount(*receiverAnnotations) == 0, result0 == parentSecurity)
+
+//@ spec optionalParam(isPointer bool, in definitions.ParamPassedIn) bool = isPointer && in != definitions.PassedInPath
+
+//@ func appendParamRequiredValidation props C06,C14
+//@ requires validation != nil
+//@ ensures opt: implies(optionalParam(isPointer, paramPassedIn), result == *validation)
+//@ ensures empty: implies(!optionalParam(isPointer, paramPassedIn) && *validation == "", result == "required")
+//@ ensures keep: implies(!optionalParam(isPointer, paramPassedIn) && *validation != "" && swagtool.hasRequired(*validation), result == *validation)
+//@ ensures add: implies(!optionalParam(isPointer, paramPassedIn) && *validation != "" && !swagtool.hasRequired(*validation), result == *validation+",required")
+//@ ensures req: implies(!optionalParam(isPointer, paramPassedIn), swagtool.hasRequired(result))
+//@ loop 0 invariant 0 <= _n && _n <= len(tags) && forall(k, 0, _n, tags[k] != "required")
+
+//@ spec isParamKind(l string) bool = l == "query" || l == "header" || l == "path" || l == "body" || l == "formfield"
+//@ spec passedInOf(l string) definitions.ParamPassedIn = ite(l == "query", definitions.PassedInQuery, ite(l == "header", definitions.PassedInHeader, ite(l == "path", definitions.PassedInPath, ite(l == "body", definitions.PassedInBody, definitions.PassedInForm))))
+
+//@ func GetParamPassedIn props C06,C10,C14
+//@ ensures nilholder: implies(paramAnnotations == nil, result1 != nil)
+//@ ensures sound: implies(result1 == nil, forall(k, 0, len(paramAnnotations.attributes), implies(annotations.isFirstByValue(*paramAnnotations, paramName, k), isParamKind(strings.ToLower(paramAnnotations.attributes[k].Name)) && result0 == passedInOf(strings.ToLower(paramAnnotations.attributes[k].Name)))))
+//@ ensures complete: implies(paramAnnotations != nil && exists(k, 0, len(paramAnnotations.attributes), annotations.isFirstByValue(*paramAnnotations, paramName, k) && isParamKind(strings.ToLower(paramAnnotations.attributes[k].Name))), result1 == nil)
+//@ ensures missing: implies(paramAnnotations != nil && forall(k, 0, len(paramAnnotations.attributes), paramAnnotations.attributes[k].Value != paramName), result1 != nil)
+
+//@ func GetParameterSchemaName props C06,C14
+//@ requires paramAnnotations != nil
+//@ ensures missing: implies(forall(k, 0, len(paramAnnotations.attributes), paramAnnotations.attributes[k].Value != paramName), result1 != nil)
+//@ ensures nonempty: implies(result1 == nil && paramName != "", result0 != "")
+
+//@ func GetParamValidator props C06,C14
+//@ requires paramAnnotations != nil
+//@ ensures missing: implies(forall(k, 0, len(paramAnnotations.attributes), paramAnnotations.attributes[k].Value != paramName), result1 != nil)
+//@ ensures req: implies(result1 == nil && !optionalParam(isPointerParam, passedIn), swagtool.hasRequired(result0))
+
+//@ func GetResponseStatusCodeAndDescription props C06,C14
+//@ requires attributes != nil
+//@ ensures dflt: implies(!annotations.hasAttr(*attributes, "Response"), result2 == nil && result1 == "" && result0 == ite(hasReturnValue, 200, 204))
+//@ ensures descr: implies(annotations.hasAttr(*attributes, "Response") && result2 == nil, forall(k, 0, len(attributes.attributes), implies(annotations.isFirst(*attributes, "Response", k), result1 == attributes.attributes[k].Description)))
+//@ ensures code: implies(annotations.hasAttr(*attributes, "Response") && result2 == nil, result0 == 0 || indom(definitions.validHttpStatusCode, uint(result0)))
+
+//@ func NewInvalidAnnotationError props C10,C14
+//@ ensures result.error != nil
